@@ -8,7 +8,7 @@ LEVEL = "model_checking"
 EXHAUSTIVE = True
 CHUNK = 1
 CASE_TIMEOUT = 600
-RULE = ("every fault kind of the catalogue that has an unambiguous culprit token (46 kinds) planted at every statement slot of 4 base "
+RULE = ("every fault kind of the catalogue that has an unambiguous culprit token (52 kinds) planted at every statement slot of 4 base "
         "programs x 9 line prefixes (none, tab, two tabs, blanks, label+tab, blank+tab, tab between mnemonic and operand, non-ASCII comment "
         "line above, trailing comment) x 4 locations (main file, second linked file, included file, file included from the second linked "
         "file). Universal oracle for every span of every report: the file is one of the run's files, start <= end, both inside the file, "
@@ -31,13 +31,19 @@ EXTRA = [
     {"id": "imm-neg-sym-oob", "text": "mov #-bigsym, r0", "culprit": (0, "-bigsym"), "col": "strict", "needs": "bigsym"},
     {"id": "abs-neg-sym-oob", "text": "clr @#-bigsym", "culprit": (0, "-bigsym"), "col": "strict", "needs": "bigsym"},
     {"id": "imm-inv-sym-oob", "text": "mov #^Cbigsym, r0", "culprit": (0, "^Cbigsym"), "col": "strict", "needs": "bigsym"},
+    {"id": "index-neg-sym-oob", "text": "mov -bigsym(r1), r0", "culprit": (0, "-bigsym"), "col": "strict", "needs": "bigsym"},
+    {"id": "index-sum-oob", "text": "mov bigsym+2(r1), r0", "culprit": (0, "bigsym+2"), "col": "strict", "needs": "bigsym"},
+    {"id": "index-deferred-sum-oob", "text": "clr @2+bigsym(r2)", "culprit": (0, "2+bigsym"), "col": "strict", "needs": "bigsym"},
+    {"id": "late-comma-brace", "text": ".repeat 1 { .word 1, 2, }", "culprit": (0, ", }"), "col": "strict"},
+    {"id": "late-comma-paren", "text": ".byte 1, 2, 3, )", "culprit": (0, ", )"), "col": "strict"},
+    {"id": "late-comma-insn", "text": "mov r0, r1, }", "culprit": (0, ", }"), "col": "strict"},
     {"id": "word-second-oob", "text": ".word 1,\t200001", "culprit": (0, "200001"), "col": "strict"},
     {"id": "undef-after-tabs", "text": "mov\t#1,\tundefsym9", "culprit": (0, "undefsym9"), "col": "strict"},
 ]
 
 
 def bound(tier):
-    return "46 fault kinds x every slot of 4 base programs x 9 prefixes x 4 locations (quick: prefix and location rotate per slot so that every fault meets every prefix and every location; thorough: full product)"
+    return "52 fault kinds x every slot of 4 base programs x 9 prefixes x 4 locations (quick: prefix and location rotate per slot so that every fault meets every prefix and every location; thorough: full product)"
 
 
 def fault_list():
